@@ -46,6 +46,9 @@ LAYOUTS = {
     "simple": ("LAYOUT: WS | EMPTY;", "WS: %s;" % WS_RE, True),
     "chars": ("LAYOUT: LayoutItem*;\nLayoutItem: WSC;", "WSC: /[ \\t\\r\\n]/;", True),
     "rightrec": ("LAYOUT: WSC LAYOUT | EMPTY;", "WSC: /[ \\t\\r\\n]/;", True),
+    # ws-equivalent, the layout terminals carrying different priorities
+    "prio": ("LAYOUT: LayoutItem | LAYOUT LayoutItem | EMPTY;\nLayoutItem: SP | NL;",
+             "SP: /[ \\t]+/ {15};\nNL: /[\\r\\n]+/;", True),
     "comments": ("LAYOUT: LayoutItem | LAYOUT LayoutItem | EMPTY;\nLayoutItem: WS | Comment;\n"
                  "Comment: '/*' CorNCs '*/' | LineComment;\nCorNCs: CorNC | CorNCs CorNC | EMPTY;\n"
                  "CorNC: Comment | NotComment | WS;",
@@ -417,6 +420,7 @@ CONFIGS = [
     ("simple", "simple", None, "ws"),
     ("chars", "chars", None, "ws"),
     ("rightrec", "rightrec", None, "ws"),
+    ("prio", "prio", None, "ws"),
     ("comments", "comments", None, "comments"),
 ]
 BAD_LAYOUT = ["/* open", "/* a /* b */", "/*/", "a /* x"]
